@@ -146,17 +146,33 @@ def check_union_typevar(ctx):
     f = m.func("_array_types._MetaAbstractDtype.__getitem__")
     ctx.saw(f)
     # union
-    comps = [n for n in ast.walk(f.node) if isinstance(n, ast.ListComp) and isinstance(n.elt, ast.Call) and norm(n.elt.func) == "_make_array"]
+    def leaves_of(e):
+        return leaves_of(e.body) + leaves_of(e.orelse) if isinstance(e, ast.IfExp) else [e]
+
+    comps = [n for n in ast.walk(f.node) if isinstance(n, (ast.ListComp, ast.GeneratorExp)) and len(n.generators) == 1 and norm(n.generators[0].iter) == "get_args(array_type)"]
+    if not comps:
+        comps = [n for n in ast.walk(f.node) if isinstance(n, ast.ListComp) and isinstance(n.elt, ast.Call) and norm(n.elt.func) == "_make_array"]
     need(len(comps) == 1, "C15.2: union comprehension not found")
     lc = comps[0]
+    need(isinstance(lc.generators[0].target, ast.Name), "C15.2: the union comprehension does not bind one member variable")
     v = lc.generators[0].target.id
-    if [norm(a) for a in lc.elt.args] != [v, "dim_str", f.params[0]] or norm(lc.generators[0].iter) != "get_args(array_type)":
+    lvs = leaves_of(lc.elt)
+    made = [e for e in lvs if isinstance(e, ast.Call) and norm(e.func) == "_make_array"]
+    raw = [e for e in lvs if e not in made]
+    if norm(lc.generators[0].iter) != "get_args(array_type)" or lc.generators[0].ifs:
         ctx.bad("C15.2", f, lc, f"union members are not each built as _make_array(member, dim_str, cls): `{norm(lc)}`")
+    elif raw:
+        ctx.bad("C15.2", f, lc, f"some union members are not built as _make_array(member, dim_str, cls) but passed on as `{norm(raw[0])}` (under `{norm(lc.elt.test) if isinstance(lc.elt, ast.IfExp) else '?'}`): "
+                "D[Union[A, B], s] no longer accepts exactly what Union[D[A, s], D[B, s]] accepts", construct="union member bypasses _make_array")
+    elif any([norm(a) for a in e.args[:3]] != [v, "dim_str", f.params[0]] for e in made):
+        ctx.bad("C15.2", f, lc, f"union members are not each built as _make_array(member, dim_str, cls): `{norm(lc)}`")
+    elif any(isinstance(x, ast.Name) and x.id == v for e in made for a in list(e.args[3:]) + [k.value for k in e.keywords] for x in ast.walk(a)):
+        raise AnalysisError("C15.2: _make_array receives a further member-dependent argument; whether members are still built uniformly is not known")
     else:
         ctx.ok("C15.2", f.qualname, "every union member is built with the same category and dim string")
-    single = [c for c in ast.walk(f.node) if isinstance(c, ast.Call) and norm(c.func) == "_make_array" and c is not lc.elt]
+    single = [c for c in ast.walk(f.node) if isinstance(c, ast.Call) and norm(c.func) == "_make_array" and c not in made]
     for c in single:
-        if [norm(a) for a in c.args] != ["array_type", "dim_str", f.params[0]]:
+        if [norm(a) for a in c.args[:3]] != ["array_type", "dim_str", f.params[0]]:
             ctx.bad("C15.2", f, c, "the non-union annotation is not built from (array_type, dim_str, cls)")
     filt = [n for n in ast.walk(f.node) if isinstance(n, ast.GeneratorExp) and any("_not_made" in norm(i) for g in n.generators for i in g.ifs)]
     if not filt:
